@@ -123,6 +123,50 @@ fn exhaustive_bdd(st: &mut Stats) {
     }
 }
 
+/// Export from a LARGE, old environment: a sub-diagram interned early, several hundred thousand
+/// other nodes interned afterwards, the same sub-diagram obtained again, and a result that reaches
+/// both. Whatever the table did in between, the export must declare every node it references.
+fn big_env_export(ctx: &Ctx, st: &mut Stats, functions: usize) {
+    let mut rng = Rng::stream(ctx.seed, "C14.bigenv", 0);
+    let nv = 10usize;
+    let labels: Vec<usize> = (0..nv + 2).collect(); // 0, 1 on top; the random functions use 2..11
+    let fvars: Vec<(usize, u32)> = (0..nv).map(|i| (i + 2, (i + 2) as u32)).collect();
+    let names: Vec<String> = labels.iter().map(|l| l.to_string()).collect();
+    let n = labels.len() as u32;
+    let idx = idx_fn(&labels);
+    let env: BDDEnv<usize> = BDDEnv::new();
+    let embed = |t: &Tt| -> Tt { t.embed(n, &(2..(nv as u32 + 2)).collect::<Vec<u32>>()) };
+    let mk_t = |rng: &mut Rng| embed(&random_table(rng, nv as u32, 8));
+    let (ts, tx, ty) = (mk_t(&mut rng), mk_t(&mut rng), mk_t(&mut rng));
+    util::budget(u64::MAX, 1000);
+    let r = guarded(|| {
+        let s_old = build_in_env(&env, &ts, &fvars);
+        let x = build_in_env(&env, &tx, &fvars);
+        let y = build_in_env(&env, &ty, &fvars);
+        for _ in 0..functions {
+            let t = mk_t(&mut rng);
+            let _ = build_in_env(&env, &t, &fvars);
+        }
+        let s_new = build_in_env(&env, &ts, &fvars);
+        let left = env.mk_choice(s_old, 1, x);
+        let right = env.mk_choice(s_new, 1, y);
+        env.mk_choice(left, 0, right)
+    });
+    st.bump("big_environment_exports");
+    let case = || json!({"kind": "big-env", "seed": ctx.seed, "functions": functions});
+    match r {
+        Ok(d) => {
+            st.add("big_environment_table_size", env.size() as u64);
+            if let Ok(t) = tt_of_bdd(&d, n, &idx) {
+                for (fname, f) in FILTERS {
+                    check_bdd_export(st, &d, &t, &names, fname, f, &case);
+                }
+            }
+        }
+        Err(c) => st.violate("c14.bdd", format!("C14:big-env:{}", c.signature()), format!("{:?}", c), case()),
+    }
+}
+
 fn random_bdd_job(ctx: &Ctx, job: usize, iters: u64) -> Stats {
     let mut st = Stats::new();
     let mut rng = Rng::stream(ctx.seed, "C14.bdd", job as u64);
@@ -323,6 +367,7 @@ pub fn run(ctx: &Ctx) -> (Stats, Spec) {
         s
     });
     st.merge(crate::report::merge_all(parts));
+    big_env_export(ctx, &mut st, ctx.tier.pick(3_600usize, 10_000usize));
     for t in [
         "[a, a] = 1", "(a & b) | (a & b)", "exists b, c # a | (b ^ c)", "if a then a else a", "[a, b] >= [b, a]", "lfp X # X | a", "gfp X # lfp Y # X & Y", "-(-a)", "{r} & {r}", "true & false", "a' | é", "forall # a", "[] = 0", "[a,] < [b,]",
         "a nor (b nand (c <= (d => (e <=> (f ^ a)))))",
@@ -337,7 +382,7 @@ pub fn run(ctx: &Ctx) -> (Stats, Spec) {
         }
     }
     let spec = Spec {
-        rule: "diagram exports (exhaustive over 3 variables x 3 filters x 3 symbol kinds, random over 4-7 sparse labels) are read back as decision graphs: ids unique, edges only to declared nodes, one T and one F edge per test node (filter Any), omitted leaf and its edges only (filter True/False), single root, every declared node reachable, number of test nodes = distinct nodes of the diagram, evaluated function = the diagram's. Parse-tree exports of random texts (every node kind, references, repeated sub-terms) are rebuilt into terms and compared with the syntax tree; one DOT node per distinct sub-term. CLI: `rsbdd -d f -p g [-f spelling]`. distinct = (table, filter, labels) resp. text; non-trivial = non-constant function with >= 2 support variables resp. tree with a repeated sub-term.".into(),
+        rule: "diagram exports (exhaustive over 3 variables x 3 filters x 3 symbol kinds, random over 4-7 sparse labels, and one result of a LARGE old environment — about 300 000 nodes — that reaches a sub-diagram obtained both before and after the growth) are read back as decision graphs: ids unique, edges only to declared nodes, one T and one F edge per test node (filter Any), omitted leaf and its edges only (filter True/False), single root, every declared node reachable, number of test nodes = distinct nodes of the diagram, evaluated function = the diagram's. Parse-tree exports of random texts (every node kind, references, repeated sub-terms) are rebuilt into terms and compared with the syntax tree; one DOT node per distinct sub-term. CLI: `rsbdd -d f -p g [-f spelling]`. distinct = (table, filter, labels) resp. text; non-trivial = non-constant function with >= 2 support variables resp. tree with a repeated sub-term.".into(),
         assumptions: vec!["DOT is read in the dialect the dot crate emits (one statement per line, label=\"…\" with Rust escape_default escapes)".into()],
         floors: vec![
             ("bdd_exports_filter_any".into(), 700, "diagram exports hardly exercised".into()),
@@ -347,6 +392,7 @@ pub fn run(ctx: &Ctx) -> (Stats, Spec) {
             ("tree_exports".into(), 5_000, "parse-tree exports hardly exercised".into()),
             ("trees_with_repeated_subterms".into(), 500, "repeated sub-terms hardly exercised".into()),
             ("cli_runs".into(), 100, "CLI hardly exercised".into()),
+            ("big_environment_exports".into(), 1, "export from a large environment not exercised".into()),
         ],
     };
     (st, spec)
@@ -356,6 +402,11 @@ pub fn replay(ctx: &Ctx, _monitor: &str, case: &Value, st: &mut Stats) {
     match case.get("kind").and_then(|k| k.as_str()).unwrap_or("") {
         "tree" => check_tree_text(st, case.get("text").and_then(|t| t.as_str()).unwrap_or(""), "replay"),
         "cli" => cli_case(ctx, st, case.get("text").and_then(|t| t.as_str()).unwrap_or(""), case.get("filter").and_then(|f| f.as_str()), "replay"),
+        "big-env" => {
+            let mut c2 = ctx.clone();
+            c2.seed = case.get("seed").and_then(|j| j.as_u64()).unwrap_or(ctx.seed);
+            big_env_export(&c2, st, case.get("functions").and_then(|j| j.as_u64()).unwrap_or(3_600) as usize);
+        }
         "bdd" => {
             let labels = parse_labels(case, "labels");
             let Some(t) = parse_table(case, "table") else { return };
